@@ -28,12 +28,24 @@ const ODD: [&str; 6] = ["", "x.", ".x", "x..y", "x y", "x-y"];
 
 /// texts looked up on every built scheme: the pool, prefixes, extensions, case variants,
 /// and texts with dangling dots / stop characters / surrounding spaces.
-const LOOKUPS: [&str; 33] = [
+const LOOKUPS: [&str; 37] = [
     "x", "x.y", "x.y.z", "X", "xy", "x_y", // pool
     "", "x.", "x.y.", "x_", // prefixes
     "x.y.z.w", "xx", "xyz", "x_y_", "x.yy", "x.y.zz", "x_y.z", // extensions
     "x.Y", "X.y", "X.Y", "XY", "Xy", "X_Y", "x.Y.z", // case
     ".x", "x..y", "x y", " x", "x ", "x-y", "x:y", "x.y z", " x.y ", // malformed / stops
+    // characters outside ASCII whose low byte is an identifier character (U+0161 -> 'a',
+    // U+0131 -> '1', U+0141 -> 'A', U+015F -> '_') are stops like any other
+    "x\u{161}", "x.y\u{131}", "\u{141}x", "x\u{15f}y",
+];
+
+/// names beginning with the word `not` (and their tails): a registered name is an identifier
+/// even where the unary operator could be read
+const NOT_POOL: [&str; 6] = ["notx", "x", "not.x", "notx.y", "x.y", "not_x"];
+const NOT_LOOKUPS: [&str; 22] = [
+    "notx", "x", "not.x", "notx.y", "x.y", "not_x", "_x", ".x", // names and tails
+    "not x", "!x", "! x", "not notx", "notnotx", "!notx", "not!x", "not  x.y", "!not.x", // operators
+    "not", "not.", "notx.", "noty", "not y", // malformed / unknown
 ];
 
 fn list_tys() -> Vec<Type> {
@@ -393,6 +405,24 @@ pub fn run(cfg: Cfg, out: &mut Out) {
             ops.push(op);
         }
         emit(out, &ops, &texts, &tys, "random");
+    }
+
+    // (D) names beginning with `not`: all histories up to length 3 over {field, function} x
+    // NOT_POOL, looked up bare and behind the unary operators
+    let texts2: Vec<String> = NOT_LOOKUPS.iter().map(|s| s.to_string()).collect();
+    let mut alpha = Vec::new();
+    for n in NOT_POOL.iter() {
+        alpha.push(Op::Field(n.to_string(), Type::Bool));
+        alpha.push(Op::Func(n.to_string()));
+    }
+    alpha.push(Op::Field("x".into(), Type::Int));
+    for len in 0..=(if cfg.quick() { 2 } else { 3 }) {
+        enumerate(cfg, out, &alpha, len, &mut counter, &texts2, &tys, "not-prefixed");
+    }
+    for _ in 0..cfg.share(if cfg.quick() { 600 } else { 20_000 }) {
+        let len = 3 + rng.below(4) as usize;
+        let ops: Vec<Op> = (0..len).map(|_| alpha[rng.below(alpha.len() as u64) as usize].clone()).collect();
+        emit(out, &ops, &texts2, &tys, "not-prefixed");
     }
 }
 
